@@ -60,7 +60,7 @@ func (m *Meta) TokenReader() xml.TokenReader {
 				},
 			),
 			xmlstream.Wrap(
-				xmlstream.Token(xml.CharData(m.Date.Format(time.RFC3339))),
+				xmlstream.Token(xml.CharData(m.Date.UTC().Format(time.RFC3339))),
 				xml.StartElement{
 					Name: xml.Name{Local: "date"},
 				},
